@@ -153,7 +153,8 @@ def write_pdf(pages: list[dict], *, info: dict[str, str] | None = None, compress
 
         res = b"<< /Font << /F1 3 0 R >>"
         if xobj_entries:
-            res += b" /XObject << " + b" ".join(xobj_entries) + b" >>"
+            # the order of a dictionary's entries carries no meaning: a writer may list the resources in any order (here: reversed); the content stream decides the painting order
+            res += b" /XObject << " + b" ".join(reversed(xobj_entries) if page.get("xobject_dict_reversed") else xobj_entries) + b" >>"
         res += b" >>"
         objs[page_num] = (
             b"<< /Type /Page /Parent 2 0 R /MediaBox [0 0 " + _num(pw) + b" " + _num(ph) + b"] /Resources "
